@@ -164,6 +164,9 @@ func replayScenarios(c *core.Ctx, rng *rand.Rand, bin, root string, nextID *int)
 			if !core.Thorough(c) && ci >= 2 && nd > 2 {
 				continue // quick tier: the pipelines of four to six stages over two days only (every order, exhaustively)
 			}
+			if ci >= 2 && nd > 3 {
+				continue // four days: the unvalued pipelines (3 and 4 stages) only
+			}
 			fams = append(fams, replayFamily{Cmd: cm.cmd, ND: nd, Variant: "none", Valued: cm.valued})
 			for n := 1; n <= nd; n++ {
 				fams = append(fams, replayFamily{Cmd: cm.cmd, ND: nd, Variant: "lifecycle", FailDay: n, Valued: cm.valued})
@@ -223,9 +226,9 @@ func replayScenarios(c *core.Ctx, rng *rand.Rand, bin, root string, nextID *int)
 		lim := limit
 		if k[2] != 0 {
 			// runs that fail are validated with the full search of Trace_PipelineSteps: fewer of them, few of the long ones
-			lim = c.Pick(40, 60)
+			lim = 40
 			if k[0] >= 5 {
-				lim = c.Pick(12, 30)
+				lim = 12
 			}
 		}
 		orderSets[i], okSets[i] = modelOrders(c, rand.New(rand.NewSource(c.Seed+int64(i))), k[0], k[1], k[2], k[3], lim)
